@@ -67,7 +67,7 @@ class QRContract:
     is a least-squares solution z of M z ~ b (normal equations M^T (M z - b) = 0).  The harness knows a frame Q for the constraint
     matrix it builds (constr = L Q1^T); the stub checks that Q really triangularises the matrix the code passed, so that a
     factorisation of anything else (constr instead of constr^T, wrong block) is noticed instead of silently modelled."""
-    def __init__(s, Q): s.Q = Q; s.of = {}; s.events = []
+    def __init__(s, Q): s.Q = Q; s.of = {}; s.events = []; s.normal = {}
     def models(s):
         def key(it, p): return (id(it), p.obj, p.off)
         def ctor_T(it, a):
@@ -89,7 +89,8 @@ class QRContract:
             if len(b) != n: raise ContractMismatch('solve: right-hand side of length %d for a %dx%d matrix' % (len(b), n, m))
             z = [it.newsym('ls_z') for _ in range(m)]
             res = [z3.Sum([R(M[i][j]) * z[j] for j in range(m)]) - R(b[i]) for i in range(n)]
-            for j in range(m): it.assume(simp(z3.Sum([R(M[i][j]) * res[i] for i in range(n)])) == 0)
+            ne = [simp(z3.Sum([R(M[i][j]) * res[i] for i in range(n)])) for j in range(m)]; s.normal[id(it)] = ne
+            for e in ne: it.assume(e == 0)
             s.events.append(('solve', n, m))
             new_vector(it, dst, z, 'qr_solution'); return None
         def seq_Q(it, seq):
@@ -136,7 +137,7 @@ def cqr_case(ck, mod, parsed, n, m, k, variant, TO, found):
     if mism:
         ck.obligation(label + ': the Householder factorisations are taken of constr^T and of the right block of A Q', 'sat', 0, True, {'contract': mism[0]})
         found.append((label + ': ' + mism[0], meta)); return
-    q1 = []; q2 = []
+    q1 = []; q2 = []; ident = 0
     for it, r in res:
         pc = list(it.pc)
         rc, x = r
@@ -146,7 +147,11 @@ def cqr_case(ck, mod, parsed, n, m, k, variant, TO, found):
         resid = [z3.Sum([A[i][j] * R(x[j]) for j in range(m)]) - b[i] for i in range(n)]
         grad = [z3.Sum([A[i][j] * resid[i] for i in range(n)]) for j in range(m)]
         proj = [simp(z3.Sum([R(Q2[j][c]) * grad[j] for j in range(m)])) for c in range(m - k)]
-        q2.append((pc, [z3.Or([e != 0 for e in proj])]))
+        ne = qc.normal.get(id(it), [])
+        if len(ne) == len(proj) and all(is_zero(proj[c] - ne[c]) for c in range(len(proj))):
+            # normal form: the projected gradient IS the left-hand side of the normal equations the factorised block satisfies
+            q2.append((pc, [z3.Or([e != 0 for e in ne])])); ident += 1
+        else: q2.append((pc, [z3.Or([e != 0 for e in proj])]))
     xf = [z3.Real('x_free%d' % j) for j in range(m)]
     s1, mdl1 = smt.agg_core(ck, label + ': constr * x = 0 exactly', q1, TO, probe=[z3.Or([z3.Sum([R(C[i][j]) * xf[j] for j in range(m)]) != 0 for i in range(k)])])
     if s1 == 'sat': found.append((label + ': constraints violated', dict(meta, model=mdl1)))
@@ -223,13 +228,18 @@ def check_c06(ck, tier, replay=None):
                        'constraint matrices are constr = L Q1^T with L an arbitrary invertible lower-triangular matrix and Q from a list of rational orthogonal frames (every full-rank constraint matrix has this form for some orthogonal Q; the list is the bound)']
     found = []
     validate_cqr(ck, mod, parsed)
-    cases = [(2, 2, 1, 0), (3, 3, 1, 0), (3, 3, 2, 1), (4, 3, 1, 2)] + ([(4, 4, 2, 0), (5, 4, 1, 1), (5, 4, 3, 2), (4, 3, 2, 3)] if tier != 'quick' else [])
+    cases = [(2, 2, 1, 0), (3, 3, 1, 0), (3, 3, 2, 1), (4, 3, 1, 2)] + ([(4, 4, 2, 0), (5, 3, 1, 1), (5, 4, 3, 2), (4, 3, 2, 3)] if tier != 'quick' else [])
     for (n, m, k, v) in cases: cqr_case(ck, mod, parsed, n, m, k, v, TO, found)
     cqr_zero_column(ck, mod, parsed, 3, 3, 1, TO, found)
-    ck.bounds['cqr'] = 'A n x m, b arbitrary reals; (n, m, constraints, frame) in %s; zero-column rejection for 3x3' % cases
+    ck.bounds['cqr'] = 'constraint null space of dimension <= 2 (dimension 3, e.g. 4x4 with 1 constraint, was not decided by z3 within 60 s and is outside); A n x m, b arbitrary reals; (n, m, constraints, frame) in %s; zero-column rejection for 3x3' % cases
     try:
         import C06i
         C06i.check_imc(ck, tier, mod, parsed, found)
+    except ImportError:
+        pass
+    try:
+        import C06f
+        C06f.check_fmatch(ck, tier, found)
     except ImportError:
         pass
     for name, meta in found:
@@ -261,6 +271,9 @@ def replay_native(meta):
     if c.startswith('imc'):
         import C06i
         return C06i.replay_native(meta)
+    if c.startswith('fmatch'):
+        import C06f
+        return C06f.replay_native(meta)
     n, m, k = meta['n'], meta['m'], meta['k']; v = meta.get('variant', 0)
     Q = frame(m, v); Q2 = [r[k:] for r in Q]
     A, b, C = concrete_instance(n, m, k, v, meta.get('zc') if c == 'cqr-zero' else None)
